@@ -314,6 +314,7 @@ var c17drainBuf []serf.Event
 func c17direct(ops []c17op, out chan serf.Event) (m *c17model, sig, msg string) {
 	c := serf.VNewMemberCoalescer()
 	m = c17newModel()
+	var held []c17held
 	for _, o := range ops {
 		switch o.t {
 		case 'E':
@@ -327,7 +328,18 @@ func c17direct(ops []c17op, out chan serf.Event) (m *c17model, sig, msg string) 
 			}
 		case 'F':
 			c.Flush(out)
-			s, g := m.flush(c17drain(out))
+			got := c17drain(out)
+			s, g := m.flush(got)
+			// what the application has received stays what it was: the reports of this flush are held
+			// (as delivered, not copied) and re-read after every later flush
+			for _, h := range held {
+				if now := c17render(h.e); now != h.was {
+					return m, "delivered-report-changed-later", fmt.Sprintf("a report delivered by flush %d read %s when it was received; after flush %d (%s) the same value reads %s", h.flush, h.was, m.flushes, o, now)
+				}
+			}
+			for _, e := range got {
+				held = append(held, c17held{e, c17render(e), m.flushes})
+			}
 			if s != "" && s != c17knownSig {
 				return m, s, g
 			}
@@ -337,6 +349,24 @@ func c17direct(ops []c17op, out chan serf.Event) (m *c17model, sig, msg string) 
 		}
 	}
 	return m, sig, msg
+}
+
+type c17held struct {
+	e     serf.Event
+	was   string
+	flush int
+}
+
+func c17render(e serf.Event) string {
+	me, ok := e.(serf.MemberEvent)
+	if !ok {
+		return fmt.Sprintf("%T", e)
+	}
+	s := me.Type.String() + "["
+	for _, m := range me.Members {
+		s += fmt.Sprintf("%s#%d ", m.Name, m.Port)
+	}
+	return s + "]"
 }
 
 type c17rec struct {
